@@ -37,7 +37,8 @@ PANIC_CALLS = {
 NOPANIC_OWNERS = ("HashMap", "HashSet", "BTreeMap", "BTreeSet")
 
 INT_BITS = {"u8": 8, "u16": 16, "u32": 32, "u64": 64, "usize": 64, "u128": 128,
-            "i8": 8, "i16": 16, "i32": 32, "i64": 64, "isize": 64, "i128": 128}
+            "i8": 8, "i16": 16, "i32": 32, "i64": 64, "isize": 64, "i128": 128,
+            "char": 32}
 
 
 def is_signed(t):
